@@ -1159,6 +1159,11 @@ func (c *compiler) evalForExpression(node *ast.ForExpression) (interface{}, erro
 }
 
 func (c *compiler) evalBlockStatement(node *ast.BlockStatement) (interface{}, error) {
+	// once the block has run without an error, the statement that was
+	// being evaluated when it started is the current one again; after an
+	// error the failing statement of the block stays current (for its line)
+	outer := c.curStmt
+
 	res := []interface{}{}
 	for _, s := range node.Statements {
 		verifYield()
@@ -1187,10 +1192,12 @@ func (c *compiler) evalBlockStatement(node *ast.BlockStatement) (interface{}, er
 				resValue = obj
 			}
 
+			c.curStmt = outer
 			return resValue, nil
 		}
 	}
 
+	c.curStmt = outer
 	return res, nil
 }
 
